@@ -4,6 +4,7 @@ pub mod urlrec;
 pub mod urlops;
 pub mod urlprops;
 pub mod specapi;
+pub mod known01;
 use std::collections::{BTreeMap, HashSet};
 use std::io::{BufRead, BufReader, Write};
 use std::process::{Child, ChildStdin, ChildStdout, Command, Stdio};
